@@ -8,6 +8,7 @@ for all zones, all include/redirect graphs, all injected errors), the session an
 meeting the caller contract `Sess.wf`.
 -/
 import QsmtpModel.Lemmas.SpfRfc
+import QsmtpModel.Spf.Txt
 
 namespace QsmtpModel.Props.C11
 open QsmtpModel QsmtpModel.Spf
@@ -348,5 +349,13 @@ example : exSess.wf = true := by decide
 example : (match checkHost exDns exSess [100,46,97,98] with
     | .ok ((r, st), log) => r == 4 && st.mech == some [97,108,108] && log == [Query.txt [100,46,97,98]] && st.evaluated == 0
     | .error _ => false) = true := by decide
+
+/-- **TXT records as the SPF code gets them** (lib/libowfatconn.c, `dns_txt_packet2`): for every list
+of character-strings of at most 255 octets each — any octets, any lengths, empty strings included —
+the record is their concatenation with the octets outside 32..126 replaced by `?`; a string of
+128..255 octets is read with its full length and no length octet becomes part of the text. -/
+theorem txt_strings_concat (ss : List (List Byte)) (h : ∀ s ∈ ss, s.length ≤ 255) :
+    Spf.Txt.txtRecord (Spf.Txt.encodeStrings ss) = (ss.flatten).map Spf.Txt.sanitize :=
+  Spf.Txt.txt_strings_concat ss h
 
 end QsmtpModel.Props.C11
